@@ -229,7 +229,10 @@ def same(a, b):
     if isinstance(a, str):
         return a == b
     a, b = np.asarray(a), np.asarray(b)
-    return a.shape == b.shape and np.array_equal(a, b, equal_nan=True)
+    if a.dtype.kind not in 'fc' or b.dtype.kind not in 'fc':
+        return a.shape == b.shape and np.array_equal(a, b)
+    # last-bit differences of numpy's SIMD kernels between identical calls (buffer alignment) are not a state change
+    return a.shape == b.shape and bool(np.allclose(a, b, rtol=1e-13, atol=0, equal_nan=True))
 
 
 def check_history(case, ctx):
